@@ -324,5 +324,28 @@ class FmtStr(Opaque):
     def fmt_parts(self):
         return [p for p in self.parts if p[0] == 'fmt']
 
+    @staticmethod
+    def values_of(part):
+        """The values a 'fmt' part prints, in template order (independent of field names, widths and literals).
+        Attribute fields '{g.pka_value}' give ('attr', object, 'pka_value')."""
+        import string
+        _, template, args, kwargs = part
+        out, auto = [], 0
+        for _lit, field, _spec, _conv in string.Formatter().parse(template):
+            if field is None:
+                continue
+            head, *rest = field.replace('[', '.').replace(']', '').split('.')
+            if head == '':
+                v = args[auto] if auto < len(args) else None
+                auto += 1
+            elif head.isdigit():
+                v = args[int(head)] if int(head) < len(args) else None
+            else:
+                v = kwargs.get(head)
+            for r in rest:
+                v = ('attr', v, r)
+            out.append(v)
+        return out
+
     def __repr__(self):
         return '<FmtStr %d parts>' % len(self.parts)
